@@ -8,6 +8,10 @@ import sys
 
 sid, prop, cdir, needs = sys.argv[1:5]
 detected_by = sys.argv[5:] or [prop]
+why = None
+if detected_by and detected_by[0].startswith("NONE:"):
+    why = " ".join(detected_by)[5:]
+    detected_by = []
 dst = os.path.join("/verif/seeded", sid)
 os.makedirs(dst, exist_ok=True)
 for f in ("patch.diff", "demo.py", "notes.md"):
@@ -29,6 +33,7 @@ meta = {
                "pytest on the test files of the touched modules, ./check <P> quick with VERIF_REPO=<worktree>, git checkout",
     },
     "checks_expected_to_detect": detected_by,
+    "why_not_detected": why,
     "detection_at_confirmation": conf.get("checks"),
 }
 json.dump(meta, open(os.path.join(dst, "meta.json"), "w"), indent=1)
